@@ -267,7 +267,7 @@ func defaultTag(r *core.Rand, f *fieldGen, added bool) (tag, feat string) {
 	case "uint":
 		opts = [][2]string{{"default:7", "default:int"}, {"default:0", "default:zero"}}
 	case "float":
-		opts = [][2]string{{"default:1.5", "default:float"}, {"default:2", "default:floatint"}, {"default:0.25", "default:float"}}
+		opts = [][2]string{{"default:1.5", "default:float"}, {"default:2", "default:floatint"}, {"default:0.25", "default:float"}, {"default:1.0", "default:float.0"}, {"default:0.0", "default:float.0"}}
 	case "bool":
 		opts = [][2]string{{"default:true", "default:bool"}, {"default:false", "default:bool"}}
 	case "string":
